@@ -877,7 +877,7 @@ def run(chk, tier):
     _AR.positive_controls(chk, D, ("ACCTYPE",))
     from ..rules import extra10 as _X10
     if _X10.self_guard_area(chk, db, ['_bitset/']) < 2:      # SELFGUARD: b ^= b clears
-        chk.analysis_broken('SELFGUARD: fewer than 2 non-idempotent compound assignments of the bitsets found (floor 2)')
+        chk.unknown_instance('SELFGUARD', 'etl::bitset', 'fewer than 2 non-idempotent compound assignments found')
     _X10.positive_controls(chk, D, ('SELFGUARD',))
     from ..rules import extra12 as _X12
     _X12.unconditional_area(chk, db, ['_bitset/'])      # UNCOND
